@@ -95,4 +95,30 @@ def kinds (p : AppState × List Delivery) : List (Nat × Nat × EvKind) := p.2.m
 
 example : ((applyOp demoSetup demoPressed .rebuild).map kinds) = some [(0, 0, EvKind.completed)] := by decide
 
+/-- one shared context type held by two entities -/
+def shareSetup : Setup :=
+  { types := [{ id := 1, priority := 5, shared := true }],
+    config := fun c _ =>
+      ({ } : ContextInstance).bind c .a1 false .cumulative (fun ab => ab.to (.single { input := .key 0 {} })) }
+
+def shareState : AppState := (runOps shareSetup {} [.spawn 0, .spawn 1, .insert 0 1 0, .insert 1 1 0]).getD {}
+def shareIdle : AppState := ((frame shareSetup shareState {} { delta := 0, speed := 1 } [] [] 100).map (·.st)).getD {}
+
+def recipients (o : FrameOut) : List (Nat × EvKind × Value) := o.deliveries.map (fun d => (d.entity, d.kind, d.value))
+
+/-- C14: every event of the frame goes to both holders, once each, with the same payload (in the action's dimension, C01) -/
+example : ((frame shareSetup shareIdle { keys := [0] } { delta := 1 / 64, speed := 1 } [] [] 100).map recipients) =
+    some [(0, .started, .a1 1), (1, .started, .a1 1), (0, .fired, .a1 1), (1, .fired, .a1 1)] := by decide
+
+/-- C10: two more held frames of 1/64 s and 1/32 s: elapsed and fired durations of the Fired events are the sums of the
+    virtual deltas since the action left None -/
+def held1 : AppState := ((frame shareSetup shareIdle { keys := [0] } { delta := 1 / 64, speed := 1 } [] [] 100).map (·.st)).getD {}
+def held2 : AppState := ((frame shareSetup held1 { keys := [0] } { delta := 1 / 64, speed := 1 } [] [] 100).map (·.st)).getD {}
+
+def durations (o : FrameOut) : List (Nat × EvKind × Option Rat × Option Rat) :=
+  o.deliveries.map (fun d => (d.entity, d.kind, d.elapsed, d.fired))
+
+example : ((frame shareSetup held2 { keys := [0] } { delta := 1 / 32, speed := 1 } [] [] 100).map durations) =
+    some [(0, .fired, some (3 / 64), some (3 / 64)), (1, .fired, some (3 / 64), some (3 / 64))] := by decide +kernel
+
 end BEI.Props.Witness
